@@ -91,6 +91,24 @@ Theorem C30_persist_matches_modulo_polling_partial : forall gc tr s,
 Proof. exact persist_matches_modulo_polling. Qed.
 Print Assumptions C30_persist_matches_modulo_polling_partial.
 
+(** Two interleavings the wake generation does not cover (known findings):
+    the OnPoll callback of a poll can still be entered after a wake that
+    completed between Poll's unlock and the callback call, and agent.doPoll
+    reads the state and then disconnects without the lock. *)
+Theorem C30_refuted_onpoll_entered_after_wake :
+  exists s1 s2, run_fixed init [NewSleep; Run 0; Run 0; Fire; Run 1; NewWake; Run 2; Run 2] = Some s1 /\
+    s_state s1 = MAwake /\ nth_error (s_threads s1) 2 = Some (Done ROk) /\
+    nth_error (s_threads s1) 1 = Some (PollBeforeCb 0) /\
+    exec_fixed s1 (Run 1) = Some s2 /\ s_log s2 = s_log s1 ++ [(1, OnPoll)] /\ s_state s2 = MAwake.
+Proof. exact refuted_onpoll_entered_after_wake. Qed.
+Print Assumptions C30_refuted_onpoll_entered_after_wake.
+
+Theorem C30_refuted_dopoll_toctou :
+  exists s, drun (mkd MPolling None []) [DReadState; DWakeCompletes; DDisconnect] = Some s /\
+    d_state s = MAwake /\ d_events s = [EvWakeCompleted; EvDisconnectAll].
+Proof. exact refuted_dopoll_toctou. Qed.
+Print Assumptions C30_refuted_dopoll_toctou.
+
 (** Source facts regenerated on this run: the order of locking, callbacks,
     state stores, timer operations, generation reads/writes and persistState
     calls inside Manager.Sleep, Wake and Poll - the atomic steps of the model.
